@@ -100,6 +100,10 @@ def main():
                 res['demo_exit_without_change'] = run_demo(wt, d)
             a = sh('git', '-C', wt, 'apply', os.path.join(d, 'patch.diff'))
             if a.returncode:
+                # context drift after later fix: commits: accept a fuzzy application, and say so
+                a = subprocess.run(['patch', '-p1', '-F3', '--no-backup-if-mismatch', '-i', os.path.join(d, 'patch.diff')], cwd=wt, stdout=subprocess.PIPE, stderr=subprocess.STDOUT, text=True)
+                res['applied_with_fuzz'] = a.returncode == 0
+            if a.returncode:
                 res['error'] = 'patch does not apply to /repo HEAD: ' + a.stdout[:300]
                 meta['results'] = res
                 json.dump(meta, open(os.path.join(d, 'meta.json'), 'w'), indent=1)
